@@ -53,6 +53,7 @@ CASES = {
     "str_index_loop_free": [("ab",), ("a",), ("",), ("xyz",)],
     "dict_comp_keys": [(["a", "b"], True), ([], True), (["a", "a"], False)],
     "dict_display_merge": [({"a": 1}, "a"), ({"a": 1}, "b"), ({}, "z")],
+    "int_bool_eq": [(1, True), (0, False), (2, True), (0, True)],
 }
 
 # sidecar types of locals the executor cannot infer (same role as `locals=` in a contract)
